@@ -40,6 +40,7 @@ func init() {
 	reg(V+"Int", intIn(64, true))
 	reg(V+"Uint64", intIn(64, false))
 	reg(V+"Uint32", intIn(32, false))
+	reg(V+"Byte", intIn(8, false))
 	reg(V+"Bool", func(in *Interp, fn *ssa.Function, a []Value, pos token.Pos) Value {
 		return in.inputTerm(strOf(in, a[0]), true, nil, nil)
 	})
